@@ -438,6 +438,25 @@ class Real {
   // copy only: a moved-from scalar keeps its value (as a built-in would); z3::expr's own move would leave a null term
   Real(const Real &) = default;
   Real &operator=(const Real &) = default;
+#ifdef SYMT_POISON_MOVED
+  // C19 archetype: the requirements promise copy construction, nothing about the state of a moved-from scalar (for a heap-backed
+  // number type it is unspecified): the source of a move becomes an arbitrary number (fresh unconstrained symbol), so any result
+  // that depends on a moved-from scalar cannot be proved. Self-move keeps the value.
+  void poison_() {
+    Real t = var("moved" + std::to_string(Engine::get().uninit_counter++));
+    n = t.n;
+    d = t.d;
+  }
+  Real(Real &&o) noexcept(false) : n(o.n), d(o.d) { o.poison_(); }
+  Real &operator=(Real &&o) noexcept(false) {
+    if (this != &o) {
+      n = o.n;
+      d = o.d;
+      o.poison_();
+    }
+    return *this;
+  }
+#endif
   static Real var(const std::string &nm) {
     z3::expr v = ctx().real_const(nm.c_str());
     auto &E = Engine::get();
@@ -697,6 +716,20 @@ class Real {
   Real(FromV, V x) : v(std::move(x)) {}
   Real(const Real &) = default;  // copy only, like the symbolic build
   Real &operator=(const Real &) = default;
+#ifdef SYMT_POISON_MOVED
+  void poison_() {
+    Real t = var("moved" + std::to_string(Engine::get().uninit_counter++));
+    v = t.v;
+  }
+  Real(Real &&o) noexcept(false) : v(o.v) { o.poison_(); }
+  Real &operator=(Real &&o) noexcept(false) {
+    if (this != &o) {
+      v = o.v;
+      o.poison_();
+    }
+    return *this;
+  }
+#endif
   static Real var(const std::string &nm) {
     auto &m = Engine::get().model;
     auto it = m.find(nm);
